@@ -45,6 +45,14 @@ def _subterms(t):
             yield from _subterms(x)
 
 
+class CBORTag:
+    """Stand-in for a decoded CBOR tag in sample values (same attribute names as the decoder's class)."""
+
+    def __init__(self, tag, value):
+        self.tag = tag
+        self.value = value
+
+
 class Stub:
     """A stand-in object for evaluation: any method call on it returns a record of the call."""
 
@@ -198,10 +206,20 @@ def teval(t: Term, env: dict):
     if op == "isinstance" and len(a) == 2:
         types = {"int": int, "str": str, "bytes": bytes, "list": list, "dict": dict, "tuple": tuple, "bool": bool, "float": float, "set": set}
         refs = a[1].args if isinstance(a[1], App) and a[1].op == "tuple" else [a[1]]
+        types["frozenset"] = frozenset
+        types["bytearray"] = bytearray
         ts = []
         for r in refs:
             if isinstance(r, Ref) and r.kind == "builtin" and r.obj in types:
                 ts.append(types[r.obj])
+            elif isinstance(r, Ref) and r.kind == "ext" and r.obj in ("collections.abc.Mapping", "typing.Mapping"):
+                from collections.abc import Mapping as _Mapping
+                ts.append(_Mapping)
+            elif isinstance(r, Ref) and r.kind == "ext" and r.obj == "decimal.Decimal":
+                from decimal import Decimal as _Decimal
+                ts.append(_Decimal)
+            elif isinstance(r, Ref) and r.kind == "ext" and r.obj == "cbor2.CBORTag":
+                ts.append(CBORTag)  # the stand-in below (the library itself is never imported by the checker)
             else:
                 raise Unknown(f"isinstance against {r}")
         return isinstance(ev(a[0]), tuple(ts))
@@ -422,7 +440,20 @@ def teval(t: Term, env: dict):
             args.append(None if isinstance(x, Sym) and x.name in ("param:self", "param:cls") else ev(x))
         return env["__calls__"][a[0].obj.name](*args)
     if op == "list":
-        return [ev(x) for x in a]
+        out_ = []
+        for x in a:
+            if isinstance(x, App) and x.op == "star" and len(x.args) == 1:
+                out_.extend(list(ev(x.args[0])))
+            else:
+                out_.append(ev(x))
+        return out_
+    if op in ("attr:value", "attr:tag") and len(a) == 1:
+        v_ = ev(a[0])
+        if type(v_).__name__ == "CBORTag":
+            return getattr(v_, op[5:])
+        raise Unknown(f"{op} of {type(v_).__name__}")
+    if op == "call:id" and len(a) == 1:
+        return id(ev(a[0]))
     if op == "tuple":
         return tuple(ev(x) for x in a)
     if op == "raises":
